@@ -10,10 +10,10 @@
 import itertools
 import random
 
-from harness import common, gen, b09lex
+from harness import common, gen, b09lex, c04
 
 PID = "C13"
-NAMES = {0: "prog", 1: "pa", 2: "pb", 3: "pc"}
+NAMES = {0: "prog", 1: "pa", 2: "pa2", 3: "p_c3"}      # one name a prefix of another, digits, underscore
 USES = ["CLS", "PRINT A", "Z=INT(A)", "PLAY \"C\"", "SOUND 1,2", "HSCREEN 2", "HCIRCLE(1,2),3", "INPUT A", "Z$=INKEY$", "HPRINT(1,2),\"X\"",
         "LOCATE 1,2", "Z=VAL(A$)", "Z=INSTR(1,A$,\"A\")", "PALETTE 1,2", "HBUFF 1,10", "Z=JOYSTK(0)", "WIDTH 40", "Z$=STRING$(3,\"A\")"]
 DECOYS = ["PRINT \"RUN ecb_play\"", "A$=\"procedure zz\"", "DATA RUN ecb_sound, PROCEDURE x", "REM RUN ecb_play", "'RUN ecb_hdraw(1)",
@@ -72,7 +72,14 @@ def main():
         meta.append(("graph %s" % (g,), r["out"]))
     # ---- (b) real programs through convert(output_dependencies=True) ----
     plan = []
-    subsets = [()] + [(u,) for u in USES] + gen.sample(rng, list(itertools.combinations(USES, 2)), 40 if thorough else 8) \
+    # every device statement form on its own (every runtime procedure the translator can call), then subsets
+    dev = []
+    for form in c04.FORMS:
+        st = c04.instantiate(form, ["lit"] * c04.nslots(form), "lit")
+        if st not in dev:
+            dev.append(st)
+    rep.count("device_forms", len(dev))
+    subsets = [()] + [(u,) for u in USES] + [(d,) for d in (dev if thorough else dev[common.seed() % 2::2])] + gen.sample(rng, list(itertools.combinations(USES, 2)), 40 if thorough else 8) \
         + gen.sample(rng, list(itertools.combinations(USES, 3)), 60 if thorough else 6)
     for k, sub in enumerate(subsets):
         for size in ((32, 80) if thorough or k % 4 == 0 else (32,)):
@@ -80,7 +87,9 @@ def main():
     for d in DECOYS:
         for size in (32, 80):
             plan.append(([d, rng.choice(USES)], size, "prog", "comment" if d.startswith(("REM", "'")) else "DATA" if d.startswith("DATA") else "string-literal"))
-    srcs = ["\n".join("%d %s" % (10 * (i + 1), s) for i, s in enumerate(stmts)) if stmts else "10 END" for stmts, _, _, _ in plan]
+    # line numbers of one to five digits
+    srcs = ["\n".join("%d %s" % ((10 * (i + 1), 12000 + 7 * i, i)[k % 3], s) for i, s in enumerate(stmts)) if stmts else "10 END"
+            for k, (stmts, _, _, _) in enumerate(plan)]
     res1 = common.run_real("w_convert", [{"src": s, "opts": {"output_dependencies": True, "procname": nm, "default_str_storage": sz}}
                                          for s, (_, sz, nm, _) in zip(srcs, plan)])
     res0 = common.run_real("w_convert", [{"src": s, "opts": {"output_dependencies": False, "default_str_storage": sz}}
